@@ -2555,8 +2555,10 @@ class C17(Check):
                 return
 
     # -- SplineMethod --------------------------------------------------------------------------
-    def make_spline_ocp(self):
-        """integrator-chain system (mixed chain lengths, vector states), bspline variable and parameter with their derivatives"""
+    def make_spline_ocp(self, force=None):
+        """integrator-chain system (mixed chain lengths, vector states), bspline variable and parameter with their derivatives.
+        force = (N, grid kind, growth): a long chain on that grid (several transcriptions in one process with the same N and different knots
+        must not share anything that depends on the knots)"""
         import casadi as ca
         rockit = B.import_rockit()
         rng = self.rng
@@ -2564,6 +2566,8 @@ class C17(Check):
         T = Fr(rng.choice([1, 2, 3, 5, 6]), 2)
         N = rng.randint(1, 5)
         gk = rng.choice(['uniform', 'geometric'])
+        if force:
+            N, gk = force[0], force[1]
         info = {"t0": t0, "T": T, "N": N, "grid": gk, "chains": [], "signals": []}
         with B.quiet():
             ocp = rockit.Ocp(t0=float(t0), T=float(T))
@@ -2571,6 +2575,8 @@ class C17(Check):
             chains = []
             for ci in range(rng.randint(1, 2)):
                 L = rng.randint(1, 3)
+                if force and ci == 0:
+                    L = 3
                 n = rng.choice([1, 1, 2])
                 members = [ocp.state(n) for _ in range(L)]
                 u = ocp.control(n)
@@ -2600,7 +2606,7 @@ class C17(Check):
                 info["signals"].append({"order": d, "dim": n, "kind": kind})
             ocp.add_objective(obj)
             ocp.subject_to(ocp.at_t0(chains[0][0][0]) == 1)
-            grid = rockit.UniformGrid() if gk == 'uniform' else rockit.GeometricGrid(rng.choice([2, 3]))
+            grid = rockit.UniformGrid() if gk == 'uniform' else rockit.GeometricGrid(force[2] if force else rng.choice([2, 3]))
             ocp.method(rockit.SplineMethod(N=N, grid=grid))
             ocp.solver('ipopt', {'ipopt.print_level': 0, 'print_time': False, 'ipopt.max_iter': 0, 'ipopt.sb': 'yes'})
             ocp._transcribed
@@ -2609,9 +2615,11 @@ class C17(Check):
     def spline_method_slice(self):
         import casadi as ca
         n = 10 if self.tier == 'quick' else 120
+        # the first cases form a history: the same N on a uniform, a geometric(2), a geometric(3) and again a uniform grid
+        HIST = [(3, 'uniform', None), (3, 'geometric', 2), (3, 'geometric', 3), (3, 'uniform', None)]   # refine 1,1,2,2
         for it in range(n):
             try:
-                ocp, chains, sigs, info = self.make_spline_ocp()
+                ocp, chains, sigs, info = self.make_spline_ocp(force=HIST[it] if it < len(HIST) else None)
             except Exception as ex:
                 self.slice_ok["signals-are-splines"] = False
                 self.violation("SplineMethod raised on an integrator-chain problem: %s: %s" % (type(ex).__name__, str(ex)[:300].replace("\n", " ")),
@@ -2619,6 +2627,8 @@ class C17(Check):
                 return
             N, T, t0 = info["N"], info["T"], info["t0"]
             r = self.rng.randint(1, 4)
+            if it < len(HIST):
+                r = [1, 1, 2, 2][it]      # the history shares its refinements too: every (N, refine) pair occurs on two different grids
             opti = ocp._method.opti
             items = []   # (label, expr, degree, dim, derivative order m of which base index)
             for ci, (members, u, nd) in enumerate(chains):
